@@ -2285,7 +2285,11 @@ func (f *fragment) importRoaring(ctx context.Context, data []byte, clear bool) e
 		f.rowCache.Add(rowID, nil)
 		if updateCache {
 			anyChanged = true
-			f.cache.BulkAdd(rowID, f.cache.Get(rowID)+uint64(changes))
+			// Recount the row: the cache holds no count for a row that was
+			// evicted or never admitted, so the old count cannot be derived
+			// from it.
+			n := f.storage.CountRange(rowID*ShardWidth, (rowID+1)*ShardWidth)
+			f.cache.BulkAdd(rowID, n)
 		}
 	}
 	// we only set this if we need to update the cache
